@@ -12,7 +12,6 @@ import (
 
 func init() { workloads["smoke"] = smoke }
 
-// smoke: does a SERVICE event of a transaction that fails at fee payment poison the service cache?
 func smoke(args []string) int {
 	dir, _ := ioutil.TempDir("", "verif.smoke.")
 	defer os.RemoveAll(dir)
@@ -21,38 +20,19 @@ func smoke(args []string) int {
 		fmt.Println("build:", err)
 		return 1
 	}
-	ca := harness.ChainAdmin(harness.ChainA)
-	// drain the chain admin: leave less than one BVM fee
-	bal := w.R.ViewL.GetBalance(ca.Addr)
-	w.R.ViewL.Clear()
-	fmt.Println("admin balance", bal)
-	keep := int64(5000000000)
-	amt := bal.String()
-	_ = keep
-	// transfer everything but 1.2e10 (transfer fee 1.05e9 is paid on top)
-	var a, b, c = bal, bal, bal
-	_, _, _ = a, b, c
-	rest := "999999999968450000000" // 1e21 - fees paid so far is unknown: compute below
-	_ = rest
-	_ = amt
-	left := int64(10000000000)
-	x := new(bigInt).Sub(bal, newBig(left))
-	res, _ := w.Exec(w.Transfer(ca, harness.User(0).Addr, x.String()))
-	fmt.Println("drain:", res.Receipts[0].Status, string(res.Receipts[0].Ret))
-	bal2 := w.R.ViewL.GetBalance(ca.Addr)
-	w.R.ViewL.Clear()
-	fmt.Println("admin balance now", bal2)
-	svc := harness.ChainA + ":s1"
-	res, _ = w.Exec(w.BVM(ca, harness.AddrService, "UpdateService", pb.String(svc), pb.String("newname"), pb.String("intro2"), pb.String(""), pb.String("d"), pb.String("r")),
-		w.BVM(ca, harness.AddrService, "UpdateService", pb.String(svc), pb.String("newname2"), pb.String("intro2"), pb.String(""), pb.String("d"), pb.String("r")))
-	for _, rc := range res.Receipts {
-		fmt.Println("update:", rc.Status, string(rc.Ret))
-	}
-	q := w.R.Query(harness.AddrService, "GetServiceInfo", pb.String(svc))
-	fmt.Println("ledger service:", string(q.Ret)[:160])
 	from, to := harness.FullID(harness.ChainA, "s1"), harness.FullID(harness.ChainB, "s1")
-	res, _ = w.Exec(w.IBTPTx(harness.User(1), harness.MkIBTP(from, to, 1, pb.IBTP_INTERCHAIN, 0), []byte("p")))
-	fmt.Println("ibtp on running node:", res.Receipts[0].Status, string(res.Receipts[0].Ret))
+	ib := harness.MkIBTP(from, to, 1, pb.IBTP_INTERCHAIN, 0)
+	raw, _ := ib.Marshal()
+	k := harness.User(3)
+	rc, _ := w.Call(k, harness.AddrInterchain, "HandleIBTPData", pb.Bytes(raw))
+	fmt.Println("HandleIBTPData:", rc.Status, string(rc.Ret))
+	fmt.Println("victim counters:", w.Interchain(from))
+	rc, _ = w.Call(k, harness.AddrBroker, "EmitInterchain", pb.String(from), pb.String(to), pb.String("f,cb,rb"), pb.String("x"), pb.String("y"), pb.String("z"))
+	fmt.Println("EmitInterchain:", rc.Status, string(rc.Ret))
+	fmt.Println("victim counters:", w.Interchain(from))
+	rc, _ = w.Call(k, harness.AddrInterchain, "DeleteInterchain", pb.String(from))
+	fmt.Println("DeleteInterchain:", rc.Status, string(rc.Ret))
+	fmt.Println("victim counters:", w.Interchain(from))
 	w.R.Close()
 	return 0
 }
